@@ -121,6 +121,23 @@ def gen_path_cases(tier, seed):
         s.timeout()
         s.add("stop")
         cases.append(("l%d" % i, s.text(), {"compare": False}))
+    # the same file stored several times inside one version stamp (the name grows by -1, -2, ... -10): short relative
+    # paths with long compound extensions make the store-path buffer grow exactly there
+    sweep = ["s" * a + "." + "e" * b for b in (4, 9, 13, 28) for a in range(1, 15)]     # stem + 2 x extension crosses the buffer's sizes
+    for j, nm in enumerate(["aa.eeee.eeee", "main.test.js.map", "a.b", "x.tar.gz.sig.asc", "n", "js/d3.v7.min.js", "q.%s" % ("e" * 40)] + (sweep if tier != "quick" else sweep[::2])):
+        s = wc.Script(log=False)
+        wc.setup_world(s, wc.base_cfg(deb=0, included=[WATCH]))
+        s.start()
+        s.exec(3, X + "/vim")
+        for r in range(12 if j < 7 else 3):
+            s.put(WATCH + "/" + nm, "round %d" % r)
+            s.write(3, WATCH + "/" + nm)
+            s.timeout()
+            if r == 5:
+                s.restart()
+                s.exec(3, X + "/vim")
+        s.add("stop")
+        cases.append(("lc%d" % j, s.text(), {"compare": False}))
     # a queue link replaced by one with a longer target between the moment its size is taken (fstatat) and the moment it
     # is read (readlinkat): whatever size was seen first, the read stays inside its buffer (implementation only)
     for j, (k, extra) in enumerate([(1, 0), (1, 1), (1, 7), (1, 30), (1, 200), (1, 2000), (3, 1), (3, 64)]):
